@@ -104,7 +104,7 @@ def _registry(flavour):
 
 
 # --------------------------------------------------------------------------- alphabet
-SHORTS = ["x", "y"]
+SHORTS = ["x", "x_b"]  # the second name extends the first by "_<suffix>" (full names are "<class path>_<format>")
 
 
 def full_of(flavour, cls_letter, short=None):
@@ -120,9 +120,9 @@ def alphabet(flavour):
         for c in "AB":
             ev.append(["reg", s, c])
     if inst:
-        ev += [["reg", ["x", "y"], "A"], ["reg", ["y", "x"], "B"]]
+        ev += [["reg", ["x", "x_b"], "A"], ["reg", ["x_b", "x"], "B"]]
         # "regd": the decorator object was created before the registry context was entered and is applied inside
-        ev += [["regd", "x", "A"], ["regd", "y", "B"]]
+        ev += [["regd", "x", "A"], ["regd", "x_b", "B"]]
     ev.append(["reg", "x.y", "A"])
     for s in SHORTS:
         for c in "AB":
@@ -131,7 +131,7 @@ def alphabet(flavour):
                     ev.append(["set", s, ["full", c, s2]])
             else:
                 ev.append(["set", s, ["full", c, None]])
-    ev += [["set", "x", ["raw", "nope.Unknown"]], ["set", "x", ["raw", "y"]], ["set", "x.y", ["full", "A", "x"]]]
+    ev += [["set", "x", ["raw", "nope.Unknown"]], ["set", "x", ["raw", "x_b"]], ["set", "x.y", ["full", "A", "x"]]]
     return ev
 
 
